@@ -18,7 +18,10 @@ RULE = ("E3: for every unit u in {'seconds','minutes','hours',1,2,7,60,90,"
         "three sections (volume rate*duration, rate<=max_ingest_rate and "
         "floor(comp/cpu)*f invariant); plus a factor sweep: every custom "
         "integer factor 1..128 (512) and 150..86400 x every whole multiple "
-        "k=0..40 (100) of it as start/duration; non-trivial = unit with f>1")
+        "k=0..40 (100) of it as start/duration; each pair is parsed in four "
+        "orders of loading/parsing the two configurations in one process "
+        "(immediately, both loaded first, reversed, sections interleaved); "
+        "non-trivial = unit with f>1")
 
 UNITS = ["seconds", "minutes", "hours", 1, 2, 7, 60, 90, 3600]
 
@@ -27,14 +30,50 @@ def factor(u):
     return {"seconds": 1, "minutes": 60, "hours": 3600}.get(u, u)
 
 
-def parse(cfg):
-    path = world.materialise(mkcase(cfg, {"wa": dag("single", [1]),
+def _path(cfg):
+    return world.materialise(mkcase(cfg, {"wa": dag("single", [1]),
                                           "wb": dag("single", [1])}))
-    c = Config(path)
-    machines, sysbw = c.parse_cluster_config()
-    arrays, pipelines, observations, max_ingest = \
-        c.parse_instrument_config("telescope")
-    hot, cold = c.parse_buffer_config()
+
+
+ORDERS = ("immediate", "load-both-then-parse", "load-both-parse-reversed",
+          "interleave-sections")
+
+
+def parse_pair(cfg_s, cfg_u, order):
+    """parse the seconds and the unit configuration in one process, with the
+    loads and the three section parses interleaved as `order` says: a
+    configuration's result must not depend on what else was loaded"""
+    ps, pu = _path(cfg_s), _path(cfg_u)
+    if order == "immediate":
+        return parse(Config(ps)), parse(Config(pu))
+    a, b = Config(ps), Config(pu)
+    if order == "load-both-then-parse":
+        return parse(a), parse(b)
+    if order == "load-both-parse-reversed":
+        rb = parse(b)
+        return parse(a), rb
+    # interleave the sections of the two configurations
+    ra, rb = {}, {}
+    ra["cl"] = a.parse_cluster_config()
+    rb["cl"] = b.parse_cluster_config()
+    rb["in"] = b.parse_instrument_config("telescope")
+    ra["in"] = a.parse_instrument_config("telescope")
+    ra["bu"] = a.parse_buffer_config()
+    rb["bu"] = b.parse_buffer_config()
+    return (_pack(ra["cl"], ra["in"], ra["bu"]),
+            _pack(rb["cl"], rb["in"], rb["bu"]))
+
+
+def parse(c):
+    return _pack(c.parse_cluster_config(),
+                 c.parse_instrument_config("telescope"),
+                 c.parse_buffer_config())
+
+
+def _pack(cl, ins, bu):
+    machines, sysbw = cl
+    arrays, pipelines, observations, max_ingest = ins
+    hot, cold = bu
     return {
         "machines": [(m.id, m.cpu, m.bandwidth) for m in machines],
         "sysbw": sysbw, "arrays": arrays, "max_ingest": max_ingest,
@@ -56,9 +95,25 @@ def judge(c):
                  (c["hotcap"], c["hotrate"]), (c["coldcap"], c["coldrate"]),
                  c["arrays"], c["max_ingest"])
     base["sysbw"] = c["sysbw"]
+    out = []
+    orders = ORDERS if c.get("orders", True) else ORDERS[:1]
+    for order in orders:
+        for clause, cause, det in judge_order(c, base, u, f, order):
+            if order != "immediate":
+                cause = "%s:%s" % (cause, order)
+            out.append((clause, cause, det))
+    seen, res = set(), []
+    for v in out:
+        if (v[0], v[1]) not in seen:
+            seen.add((v[0], v[1]))
+            res.append(v)
+    return res
+
+
+def judge_order(c, base, u, f, order):
     try:
-        s = parse(dict(base, timestep="seconds"))
-        p = parse(dict(base, timestep=u))
+        s, p = parse_pair(dict(base, timestep="seconds"),
+                          dict(base, timestep=u), order)
     except Exception as e:
         return [("C16.parses", "parse-raised:%s" % type(e).__name__,
                  {"error": repr(e)})]
@@ -177,7 +232,7 @@ def run(rep, tier, seed):
         s["cases"] += 1
         s["executions"] += 2
         rep.evaluations += 1
-        rep.transitions += 6
+        rep.transitions += 24
         if factor(c["unit"]) > 1:
             rep.nontrivial.add(len(rep.nontrivial))
         for clause, cause, det in vs:
